@@ -48,11 +48,19 @@ Section Gen.
     - destruct (c_key (cmp_get c a)) as [k|] eqn:Ek; cbn; [now apply Hk|exact IH].
   Qed.
 
+  Lemma sel_for_ok op c :
+    (forall a, cattr_ok (cmp_get c a)) ->
+    match sel_for op c with SBy _ g => toks_ok g | SKey k => toks_ok k | SOwn => True end.
+  Proof.
+    intros H. destruct op; try apply (selected_ok _ c H). cbn [sel_for]. unfold eq_selected.
+    destruct (selected CEq c); [apply (selected_ok CPartialEq c H) | apply (selected_ok CPartialEq c H) | exact I].
+  Qed.
+
   Lemma spec_cmp_field_ok op f : fentry_ok f -> cmp_ok user (spec_cmp_field op f).
   Proof.
     intros (Hf & Hc & _). split; [exact Hf|]. cbn [cf_expr spec_cmp_field].
-    pose proof (selected_ok op (ha_cmp (fe_hattrs f)) Hc) as H. unfold expr_of.
-    destruct (selected op _); cbn; exact H.
+    pose proof (sel_for_ok op (ha_cmp (fe_hattrs f)) Hc) as H. unfold expr_of.
+    destruct (sel_for op _); cbn; exact H.
   Qed.
 
   Lemma cmp_fields_ok op fs :
